@@ -269,13 +269,17 @@ def run_model(c, ctx):
   if not expect_fold:
     return
   wide = "quantized_bits(20,4,1,alpha=1.0)"
+  # every third model: coarse data-dependent kernels (3 bits, alpha None -> auto_po2 inside the layer), for which
+  # quantizing twice is not quantizing once; only folded-vs-unfolded is compared for those
+  narrow = c["mseed"] % 3 == 0
+  kq = "quantized_bits(3,0,1)" if narrow else wide
   # a conv with an inline activation directly followed by BN: folding moves the BN in front of the activation
   act_before_bn = [l.name for l in model.layers if type(l).__name__ == "Conv2D" and l.get_config()["activation"] != "linear"
                    and l.name in expect_fold]
   base = dict(base, conv_activation_before_bn=bool(act_before_bn))
-  qd = {"QConv2D": {"kernel_quantizer": wide, "bias_quantizer": wide}, "QDepthwiseConv2D": {"depthwise_quantizer": wide, "bias_quantizer": wide},
-        "QConv2DBatchnorm": {"kernel_quantizer": wide, "bias_quantizer": wide},
-        "QDepthwiseConv2DBatchnorm": {"depthwise_quantizer": wide, "bias_quantizer": wide}}
+  qd = {"QConv2D": {"kernel_quantizer": kq, "bias_quantizer": wide}, "QDepthwiseConv2D": {"depthwise_quantizer": kq, "bias_quantizer": wide},
+        "QConv2DBatchnorm": {"kernel_quantizer": kq, "bias_quantizer": wide},
+        "QDepthwiseConv2DBatchnorm": {"depthwise_quantizer": kq, "bias_quantizer": wide}}
   for n in act_before_bn:      # keep the inline relu wide so that only the order of operations can differ
     qd[n] = {"kernel_quantizer": wide, "bias_quantizer": wide, "activation_quantizer": "quantized_relu(24,8)"}
   ok, qm = ctx.call(dict(base, op="model_quantize_with_folding"), qutils.model_quantize, model, qd, 8, enable_bn_folding=True)
@@ -302,7 +306,7 @@ def run_model(c, ctx):
   y_float = np.asarray(model(x, training=False))
   y_fold = np.asarray(qm(x, training=False))
   tol = 2e-3 * max(1.0, float(np.abs(y_float).max()))
-  if y_fold.shape != y_float.shape or float(np.abs(y_fold - y_float).max()) > tol:
+  if not narrow and (y_fold.shape != y_float.shape or float(np.abs(y_fold - y_float).max()) > tol):
     ctx.violation(dict(base, kind="folded_model_differs_from_source_model"),
                   "max |diff| = %g (20-bit quantizers, tolerance %g)" % (float(np.abs(y_fold - y_float).max()), tol),
                   {"layers": [l.name for l in model.layers]})
